@@ -180,7 +180,7 @@ void add_jobs(mc::Main& m)
         range_pair<i64, T>(c);
         range_pair<u64, T>(c);
     });
-#if !defined(MC_FLAVOUR_SAN)
+#if !defined(MC_FLAVOUR_SAN) && !defined(MC_FLAVOUR_CHK) && !defined(MC_FLAVOUR_O2)
     if constexpr (sizeof(T) == 2) {
         for (unsigned k = 0; k < 16; ++k) {
             m.job(cat("full16-cmp-", t, "-", k), {"thorough"}, [k](mc::Reporter& r) {
